@@ -77,6 +77,7 @@ def func_of_node(repo, node):
 
 
 CTOR_ATTRS = {}        # abstract class name -> {attribute assigned in the real __init__: ("const", value) | ("unknown", None)}
+ENUM_VALUES = {}       # enum member identifier -> its value, when a rule read it from the class body
 CLASS_METHODS = {}     # abstract class name -> names of methods / properties of the real class(es) it stands for
 
 
@@ -115,6 +116,14 @@ for _p in ("np.", "numpy."):
         _NP_DTYPES[_p + _n] = "dtype:" + _k
 _OPERATOR_FUNCS = {"operator.add": ast.Add, "operator.sub": ast.Sub, "operator.mul": ast.Mult, "operator.truediv": ast.Div, "operator.neg": "neg",
                    "operator.iadd": ast.Add, "operator.isub": ast.Sub, "operator.pos": "pos"}
+
+
+_OPERATOR_CMP = {"operator.eq": ast.Eq, "operator.ne": ast.NotEq, "operator.lt": ast.Lt, "operator.le": ast.LtE, "operator.gt": ast.Gt, "operator.ge": ast.GtE,
+                 "operator.is_": ast.Is, "operator.is_not": ast.IsNot, "operator.contains": None}
+_OPERATOR_CMP.pop("operator.contains")
+_STD_MODULES = ("itertools", "functools", "operator", "math", "copy")
+_NOTHANDLED = object()
+_BUILTIN_CALLABLES = ("map", "filter", "zip", "enumerate", "sorted", "reversed", "sum", "min", "max", "abs", "any", "all", "range", "set", "callable", "divmod", "print", "getattr", "hasattr")
 
 
 class BoundedCount(list):
@@ -197,6 +206,11 @@ class Abs:
             g = self._global(e.id)
             if g is not _MISSING:
                 return g
+            cn = self._canon(e.id)
+            if cn != e.id:
+                return ("callable", cn)         # a standard-library callable imported by name (from itertools import product)
+            if e.id in _BUILTIN_CALLABLES:
+                return ("callable", e.id)
             raise Undecided("unbound name %s" % e.id)
         if isinstance(e, (ast.List, ast.Tuple)):
             vals = []
@@ -207,7 +221,18 @@ class Abs:
                     vals.append(self.ev(x))
             return vals if isinstance(e, ast.List) else tuple(vals)
         if isinstance(e, ast.Dict):
-            return {self._key(self.ev(k)): self.ev(v) for k, v in zip(e.keys, e.values)}
+            out = {}
+            for k, v in zip(e.keys, e.values):
+                if k is None:                   # {**other}
+                    other = self.ev(v)
+                    if not isinstance(other, dict):
+                        if other is None or isinstance(other, (bool, int, float, list, tuple, str)):
+                            raise Raised("TypeError(%s object is not a mapping)" % type(other).__name__)
+                        raise Undecided("** of %r in a dict display" % (other,))
+                    out.update(other)
+                else:
+                    out[self._key(self.ev(k))] = self.ev(v)
+            return out
         if isinstance(e, ast.Attribute):
             dn = dotted(e)
             if dn in self.consts:
@@ -229,8 +254,12 @@ class Abs:
                 return float("nan")
             if dn in self.summaries:
                 return ("callable", dn)
-            if dn in _OPERATOR_FUNCS:
-                return ("py", (lambda *a, _dn=dn: self._operator(_dn, list(a))))
+            if dn is not None:
+                cn = self._canon(dn)
+                if cn in _OPERATOR_FUNCS:
+                    return ("py", (lambda *a, _dn=cn: self._operator(_dn, list(a))))
+                if cn.split(".")[0] in ("itertools", "functools", "operator") and cn.split(".")[0] not in self.env and cn not in self.summaries:
+                    return ("callable", cn)
             if dn is not None and not self._const_rooted(dn):
                 if dn in self.types:
                     return ("callable", dn)
@@ -319,6 +348,11 @@ class Abs:
             return self.binop(e.op, a, b)
         if isinstance(e, ast.IfExp):
             return self.ev(e.body) if self.truth(self.ev(e.test)) else self.ev(e.orelse)
+        if isinstance(e, ast.NamedExpr):
+            v = self.ev(e.value)
+            self.env[e.target.id] = v          # binds in the enclosing function scope, also from inside a comprehension
+            self._walrus = getattr(self, "_walrus", set()) | {e.target.id}
+            return v
         if isinstance(e, ast.Call):
             return self.call(e)
         if isinstance(e, (ast.ListComp, ast.GeneratorExp, ast.SetComp)):
@@ -379,7 +413,9 @@ class Abs:
             self._bind(g.target, item)
             if all(self.truth(self.ev(c)) for c in g.ifs):
                 self._comp(e, gi + 1, acc)
+        keep = {n: self.env[n] for n in getattr(self, "_walrus", ()) if n in self.env}
         self.env = saved
+        self.env.update(keep)
         return acc
 
     def _key(self, k):
@@ -610,6 +646,12 @@ class Abs:
             return ("py", lambda obj, *a: ("boundclosure", base, obj))      # a function bound to an instance
         if isinstance(base, tuple) and attr in ("index", "count"):
             return ("listm", attr, list(base))
+        if isinstance(base, Tok) and base.kind == "enum" and attr in ("name", "value"):
+            if attr == "name":
+                return base.label          # enum members: .name is the member's identifier
+            if base.label in ENUM_VALUES:
+                return ENUM_VALUES[base.label]
+            raise Undecided("value of the enum member %s" % base.label)
         if isinstance(base, Tok):
             return Tok("%s.%s" % (base.label, attr))
         if type(base).__name__ == "Rat":
@@ -671,6 +713,29 @@ class Abs:
             return self._super_call(e.func.value, e.func.attr, args, kw)
         if dn == "isinstance":
             return self.isinstance(args[0], e.args[1])
+        dn = self._canon(dn)
+        if dn in self.summaries:
+            return _lib(self.summaries[dn], args, kw)
+        r = self._dispatch(dn, args, kw)
+        if r is not _NOTHANDLED:
+            return r
+        f = self.ev(e.func)
+        return self.apply(f, args, kw)
+
+    def _canon(self, dn):
+        """`product` / `_reduce` / `it.chain`: a name the module imported from the standard library, under the library's own name"""
+        if dn is None:
+            return dn
+        root, _, rest = dn.partition(".")
+        if root in self.env or self.module is None:
+            return dn
+        tgt = self.module.imports.get(root)
+        if tgt and tgt.split(".")[0] in _STD_MODULES:
+            return tgt + ("." + rest if rest else "")
+        return dn
+
+    def _dispatch(self, dn, args, kw):
+        """built-in and standard-library callables by their (canonical) name; _NOTHANDLED when the name is none of them"""
         if dn == "len":
             if isinstance(args[0], (list, tuple, dict, str)):
                 return len(args[0])
@@ -698,9 +763,9 @@ class Abs:
         if dn == "object" and not args:
             self._obj_counter = getattr(self, "_obj_counter", 0) + 1
             return Tok("object#%d" % self._obj_counter, "obj")
-        if dn in _OPERATOR_FUNCS and dn not in self.env:
+        if dn in _OPERATOR_FUNCS:
             return self._operator(dn, args)
-        if dn in ("itertools.count", "count") and dn not in self.env and len(args) <= 2:
+        if dn == "itertools.count" and len(args) <= 2:
             start = args[0] if args else 0
             step = args[1] if len(args) > 1 else 1
             return BoundedCount(start + i * step for i in range(5000))
@@ -797,10 +862,12 @@ class Abs:
             fn = args[0]
             seqs = [self._iter(a) for a in args[1:]]
             return [self.apply(fn, list(items), {}) for items in zip(*seqs)]
-        if dn in ("functools.reduce", "reduce"):
+        if dn == "functools.reduce" or (dn == "reduce" and "reduce" not in self.env):
             fn, seq = args[0], self._iter(args[1])
+            if len(args) > 2:
+                seq = [args[2]] + list(seq)
             if not seq:
-                raise Raised("TypeError(reduce of empty sequence)")
+                raise Raised("TypeError(reduce() of empty iterable with no initial value)")
             acc = seq[0]
             for x in seq[1:]:
                 acc = self.apply(fn, [acc, x], {})
@@ -839,8 +906,83 @@ class Abs:
             for x in self._iter(args[0]):
                 tot = self.binop(ast.Add(), tot, x)
             return tot
-        f = self.ev(e.func)
-        return self.apply(f, args, kw)
+        if dn in ("functools.partial",):
+            if not args:
+                raise Raised("TypeError(partial() needs a callable)")
+            return ("partial", args[0], list(args[1:]), dict(kw))
+        if dn in ("itertools.chain",):
+            out = []
+            for a in args:
+                out.extend(self._iter(a))
+            return out
+        if dn in ("itertools.chain.from_iterable",):
+            out = []
+            for a in self._iter(args[0]):
+                out.extend(self._iter(a))
+            return out
+        if dn == "itertools.repeat":
+            if len(args) == 2 and isinstance(args[1], int):
+                return [args[0]] * max(args[1], 0)
+            if len(args) == 1:
+                return BoundedCount(args[0] for _ in range(5000))
+        if dn == "itertools.islice" and len(args) in (2, 3, 4):
+            import itertools as _it
+            return list(_it.islice(self._iter(args[0]), *args[1:]))
+        if dn == "itertools.accumulate" and args:
+            seq = self._iter(args[0])
+            fn = args[1] if len(args) > 1 else kw.get("func")
+            out = []
+            for x in seq:
+                out.append(x if not out else (self.binop(ast.Add(), out[-1], x) if fn is None else self.apply(fn, [out[-1], x], {})))
+            return out
+        if dn == "itertools.starmap" and len(args) == 2:
+            return [self.apply(args[0], list(self._iter(t)), {}) for t in self._iter(args[1])]
+        if dn == "itertools.zip_longest":
+            import itertools as _it
+            return [tuple(t) for t in _it.zip_longest(*[self._iter(a) for a in args], fillvalue=kw.get("fillvalue"))]
+        if dn in ("itertools.combinations", "itertools.permutations") and len(args) in (1, 2):
+            import itertools as _it
+            return [tuple(t) for t in getattr(_it, dn.split(".")[1])(self._iter(args[0]), *args[1:])]
+        if dn == "operator.itemgetter" and args:
+            keys = list(args)
+            return ("py", (lambda o, _k=keys: self._getitem(o, _k[0]) if len(_k) == 1 else tuple(self._getitem(o, k) for k in _k)))
+        if dn == "operator.attrgetter" and len(args) == 1 and isinstance(args[0], str):
+            return ("py", (lambda o, _a=args[0]: self.getattr(o, _a)))
+        if dn == "operator.getitem" and len(args) == 2:
+            return self._getitem(args[0], args[1])
+        if dn in _OPERATOR_CMP and len(args) == 2:
+            return self.compare(_OPERATOR_CMP[dn](), args[0], args[1])
+        if dn in ("operator.not_",) and len(args) == 1:
+            return not self.truth(args[0])
+        if dn in ("operator.truth",) and len(args) == 1:
+            return self.truth(args[0])
+        if dn in ("operator.pow",) and len(args) == 2:
+            return self.binop(ast.Pow(), args[0], args[1])
+        if dn in ("operator.matmul",) and len(args) == 2:
+            return self.binop(ast.MatMult(), args[0], args[1])
+        if dn in ("copy.copy", "copy.deepcopy") and len(args) >= 1 and dn not in self.summaries:
+            return _NOTHANDLED
+        return _NOTHANDLED
+
+    def _getitem(self, o, k):
+        if getattr(o, "_abs_native", False):
+            try:
+                return o[k]
+            except IndexError as ex:
+                raise Raised("IndexError(%s)" % ex)
+        if isinstance(o, dict):
+            kk = self._key(k)
+            if kk not in o:
+                raise Raised("KeyError(%r)" % (k,))
+            return o[kk]
+        if isinstance(o, (list, tuple, str)):
+            if isinstance(k, bool) or not isinstance(k, (int, slice)):
+                raise Raised("TypeError(indices must be integers or slices)")
+            try:
+                return o[k]
+            except IndexError as ex:
+                raise Raised("IndexError(%s)" % ex)
+        raise Undecided("item %r of %r" % (k, o))
 
     def apply(self, f, args, kw):
         if isinstance(f, tuple) and f and isinstance(f[0], str):
@@ -848,7 +990,14 @@ class Abs:
             if tag == "callable":
                 if f[1] in self.summaries:
                     return _lib(self.summaries[f[1]], args, kw)
+                r = self._dispatch(f[1], list(args), dict(kw))
+                if r is not _NOTHANDLED:
+                    return r
                 raise Undecided("no summary for %s" % f[1])
+            if tag == "partial":
+                kw2 = dict(f[3])
+                kw2.update(kw)
+                return self.apply(f[1], list(f[2]) + list(args), kw2)
             if tag == "bound":
                 return _lib(self.summaries[f[1]], [f[2]] + list(args), kw)
             if tag == "py":
